@@ -7,7 +7,7 @@
 set -u
 ROOT="$(cd "$(dirname "$0")/.." && pwd)"
 CACHE="$ROOT/.cache"
-mkdir -p "$CACHE/driver" "$CACHE/specdriver" "$CACHE/logs"
+mkdir -p "$CACHE/driver" "$CACHE/specdriver" "$CACHE/scheddriver" "$CACHE/logs"
 exec 9>"$CACHE/build.lock"
 flock 9
 export CARGO_NET_OFFLINE=true
@@ -43,12 +43,13 @@ build_driver() { # dir extract-file ml-module driver-source exe
 }
 if build_driver driver Extract.v model driver.ml driver; then stage driver ok; else stage driver fail; fi
 if build_driver specdriver ExtractSpec.v spec specdriver.ml specdriver; then stage specdriver ok; else stage specdriver fail; fi
+if build_driver scheddriver ExtractSched.v sched scheddriver.ml scheddriver; then stage scheddriver ok; else stage scheddriver fail; fi
 
 # --- Rust harness (two profiles) and the hooked engine binary, from /repo's working tree
 cd "$ROOT/harness"
 cp /repo/Cargo.lock Cargo.lock 2>/dev/null && sed -i 's/name = "rustybait"/name = "verif_harness"/' Cargo.lock
 export RUSTFLAGS="--cfg daniel729_chess_verif"
-for profile in release checked; do
+for profile in release checked bounds; do
   if timeout 900 cargo build --offline --profile $profile --target-dir "$CACHE/target-harness" > "$CACHE/logs/harness_$profile.log" 2>&1; then stage harness_$profile ok
   else grep -E "^error" -A12 "$CACHE/logs/harness_$profile.log" | head -40; rm -f "$CACHE/target-harness/$profile/verif_harness"; stage harness_$profile fail; fi
 done
